@@ -304,6 +304,19 @@ pub fn set_clock(c: Clock) {
     *CLOCK.lock().unwrap_or_else(|e| e.into_inner()) = c;
 }
 
+/// Scripted clock that never moves backwards: `now` becomes max(requested, current scripted value).
+/// Returns the value the next read will see.
+pub fn set_clock_monotone(ms: u64, step: u64) -> u64 {
+    let mut c = CLOCK.lock().unwrap_or_else(|e| e.into_inner());
+    let cur = match &*c {
+        Clock::Auto { now, .. } => *now,
+        Clock::Real => 0,
+    };
+    let now = ms.max(cur);
+    *c = Clock::Auto { now, step };
+    now
+}
+
 pub fn set_fault(name: &str, args: Vec<u64>) {
     lock().faults.insert(name.to_string(), args);
 }
